@@ -181,7 +181,11 @@ impl Gen {
         let mut out: Vec<Key> = Vec::new();
         let mut seen: BTreeSet<Vec<u8>> = BTreeSet::new();
         let mut tries = 0;
-        while out.len() < n && tries < n * 400 + 100 {
+        let max_tries = match buckets {
+            Some((nb, _)) => (n as u64 * nb.min(4096) * 6 + 200) as usize,
+            None => n * 400 + 100,
+        };
+        while out.len() < n && tries < max_tries {
             tries += 1;
             let k = match kt {
                 KType::U64 | KType::Vu64 => Key::U(self.int_boundary()),
@@ -230,6 +234,10 @@ impl Gen {
             if seen.insert(s) {
                 out.push(k);
             }
+        }
+        if out.is_empty() {
+            // the bucket constraint could not be met: fall back to an unconstrained key
+            return self.alphabet(kt, 1, kd, None);
         }
         out
     }
@@ -331,7 +339,7 @@ pub fn history(g: &mut Gen, cfg: &HistCfg) -> Vec<Step> {
     for (i, m) in cfg.maps.iter().enumerate() {
         let b = if cfg.one_bucket && i == 0 {
             let nb = m.params.expected_buckets(false);
-            if nb > 1 {
+            if nb > 1 && nb <= 4096 {
                 Some((nb, g.rng.below(nb)))
             } else {
                 None
